@@ -205,7 +205,12 @@ unsafe fn level_swap<M: Manager>(
         }
         // Insert only now: the node's position in the unique table depends on
         // its (new) children.
-        upper.insert(manager.clone_edge(e));
+        // SAFETY: we have exclusive access to the node. All nodes at the new
+        // upper level carry `lower_no_pre` until the caller updates the level
+        // numbers, and so must this one.
+        unsafe { node.set_level(lower_no_pre) };
+        // SAFETY: the caller will update level numbers accordingly
+        unsafe { upper.insert_unchecked(manager.clone_edge(e)) };
     }
 
     abort_on_panic.defuse();
